@@ -1371,7 +1371,7 @@ def _run(ctx, coq_ok, base_tmp):
 
     # ---- scenarios: generate, write, build the Coq terms
     scs = fixed_scenarios(rng)
-    n_rand = 40 if quick else 800
+    n_rand = 32 if quick else 800
     for i in range(n_rand):
         scs.append(gen_scenario(rng, malformed=(i % 4 == 3), conflicts=(i % 3 != 0)))
     B = Batch()
@@ -1408,7 +1408,7 @@ def _run(ctx, coq_ok, base_tmp):
         # ---- the implementation on every scenario
         t_impl0 = coq.now()
         n_hist = 0
-        max_hist = 6 if quick else 60
+        max_hist = 5 if quick else 60
         for si, (sc, info) in enumerate(zip(scs, infos)):
             root = info["root"]
             with Redirect(os.path.join(root, *sc.home), None if sc.xdg is None else os.path.join(root, *sc.xdg), os.path.join(root, *sc.cwd)):
